@@ -81,10 +81,19 @@ def known_meta(msg):
                 section1_length=s1, section3_length=s3)
 
 
+CHANGED_LATER = b'<<a yielded message object no longer holds the bytes it held when it was yielded>>'
+
+
 def collect(gen, cap):
+    """the bytes of every yielded message, read when it is yielded; the message objects are kept, as a caller collecting the
+    messages of a file would keep them, and must still hold the same bytes when the scan is over"""
     out = []
+    held = []
     for m in itertools.islice(gen, cap + 1):
         out.append(m.serialized_bytes)
+        held.append(m)
+    if len(set(id(m) for m in held)) != len(held) or [m.serialized_bytes for m in held] != out:
+        out.append(CHANGED_LATER)
     return out
 
 
@@ -96,7 +105,9 @@ def check_yields(ctx, got, want, stream, cap, spec, clause):
     if got == want:
         return True
     gs, ws = list(got), list(want)
-    if len(gs) < len(ws) and all(g in ws for g in gs):
+    if CHANGED_LATER in gs:
+        kind = 'yielded-object-changed-later'
+    elif len(gs) < len(ws) and all(g in ws for g in gs):
         kind = 'loss'
     elif len(gs) > len(ws) and all(w in gs for w in ws):
         extra = [g for g in gs if g not in ws]
